@@ -282,7 +282,17 @@ def stateless_domain(ctx):
         shutil.rmtree(root, ignore_errors=True)
 
 
+def deductive(ctx):
+    """engine D: on every path of the real TypeParser.__call__ a plain value is accepted only as the value self.coerce(obj)
+    returned; a TypeError of coerce leaves as a TypeError (rejected when assigned) -- contracts/typeparser_call.py:contract_c20"""
+    from contracts import typeparser_call as TC
+    from pyvc.verify import verify, summarize
+
+    summarize(ctx, verify(ctx, TC.contract_c20()))
+
+
 def run(ctx):
+    deductive(ctx)
     stateless_domain(ctx)
     _run_main(ctx)
 
